@@ -111,6 +111,14 @@ def judge_ctl(run, cases, rows):
                         "of case %d, %s; events %s, status writes %s" % (c["id"], "made this controller store it / claim its host" if wp.get("stored") else "was not stored",
                                                                        json.dumps(wp.get("events")), json.dumps(wp.get("writes"))),
                         theorem="harness arb (VerifCtl.WeightProbe)")
+        wq = c.get("weight_probe_pending") or {}
+        if wq.get("stored") or wq.get("events") or wq.get("writes"):
+            run.failing({"kind": "foreign-weight-update-stored", "window": "class-change-pending"}, [c],
+                        "C16: with -weight-changes-dynamic-reload, after the history of case %d: a served VirtualServer is edited to another class (the update waits in the queue) and a weight-only "
+                        "update of the now foreign object reaches the real informer update handler before that task runs: %s; events %s, status writes %s"
+                        % (c["id"], "the foreign object was stored in Configuration (or the handler panicked)" if wq.get("stored") else "not stored",
+                           json.dumps(wq.get("events")), json.dumps(wq.get("writes"))),
+                        theorem="harness arb (VerifCtl.WeightProbePending)")
         if r[DL] != 0:
             ld = c.get("leader") or {}
             run.failing({"kind": "not-silent", "how": "status-write-on-foreign-object-at-leader-start"}, [c],
@@ -143,8 +151,9 @@ def check(run):
                         "handler of its kind (add/update/delete) and an update may be dropped only if it is identical to the last event about the object; at the end of the history the "
                         "real OnStartedLeading callback runs on the cluster (every object has an Event in the API, three Policies of own/foreign/named class exist) and its status "
                         "writes must not name a foreign-class object; and a weight-only update of a foreign-class VirtualServer is delivered to the real update handler with "
-                        "-weight-changes-dynamic-reload on: it must not be stored, claim a host, or receive events / status writes; a Policy in use by an own-class VirtualServer is "
-                        "edited to another class through the real policy handler: its rule must leave the VirtualServer's file; and after every event the owner of every host is the least "
+                        "-weight-changes-dynamic-reload on: it must not be stored, claim a host, or receive events / status writes, also when the object was served a moment ago and the update "
+                        "that moved it to the other class is still waiting in the queue; a Policy in use by an own-class VirtualServer (referenced from the spec, a route, spec and route, or two "
+                        "routes, by case) is edited to another class through the real policy handler: its rule must leave the VirtualServer's file; and after every event the owner of every host is the least "
                         "own-class claimant (hosts pass to the next claimant)")
     run.assumptions += [
                         "Policies are not arbitrated by Configuration; their class filter (getPolicies) is covered by C08"]
